@@ -530,7 +530,9 @@ def execute(ctx, prog, steps, tag):
 def diff_names(a, b):
     if not isinstance(a, dict) or not isinstance(b, dict):
         return f'{a!r} -> {b!r}'[:300]
-    names = [n for n in set(a) | set(b) if a.get(n) != b.get(n)]
+    names = sorted(n for n in set(a) | set(b) if a.get(n) != b.get(n))
+    if not names:
+        return 'no difference'
     n = names[0]
     return f'{n}: {a.get(n)!r} -> {b.get(n)!r}'[:400]
 
@@ -628,10 +630,12 @@ def mixin_shared_check(ctx, prog):
         except Exception as e:   # noqa
             ctx.label(f'program-refused:{type(e).__name__}')
             return
-        if snap_class(alone.classes[c['name']]) != snap_class(world.classes[c['name']]) or fresh_snap(alone, c['name']) != fresh_snap(world, c['name']):
+        sa, sw = snap_class(alone.classes[c['name']]), snap_class(world.classes[c['name']])
+        fa, fw = fresh_snap(alone, c['name']), fresh_snap(world, c['name'])
+        if sa != sw or fa != fw:
+            what = diff_names(sa, sw) if sa != sw else (diff_names(fa, fw) if isinstance(fa, dict) and isinstance(fw, dict) else f'{fa!r} vs {fw!r}'[:300])
             ctx.finding('shared-with-plain-mixin:class-depends-on-other-classes', dict(prog, steps=steps, order=[]),
-                        f'{c["name"]} (built with the mixin) differs when the other user of the override object is defined too: '
-                        f'{diff_names(snap_class(alone.classes[c["name"]]), snap_class(world.classes[c["name"]]))}')
+                        f'{c["name"]} (built with the mixin) differs when the other user of the override object is defined too: {what}')
             return
     ctx.ok('mixin-shared-object')
 
